@@ -47,12 +47,12 @@ def run(ctx: RuleContext):
     r = roles_for(m)
     sites = find_sites(ctx, r)
     ctx.counters["rollback_sites"] = len(sites)
-    ctx.floor("C04.1", "rollback_sites", 2)
+    ctx.sub(ctx.floor, "C04.1", "rollback_sites", 2)
     for site in sites:
-        check_site(ctx, r, site)
+        ctx.sub(check_site, ctx, r, site)
     stack_tl, stack_attr, _ = c05.locate_stack(r)
-    c05._check_set(ctx, r, r.set, stack_tl, stack_attr, "C04.4", t3="C04.3", t4="C04.4")
-    check_slot_agreement(ctx, r)
+    ctx.sub(c05._check_set, ctx, r, r.set, stack_tl, stack_attr, "C04.4", t3="C04.3", t4="C04.4")
+    ctx.sub(check_slot_agreement, ctx, r)
 
 
 class Site:
@@ -143,7 +143,9 @@ def _result_fact(test, truth, resvars):
             return (t.left.args[0].id, "accept" if (val == eq) else "reject")
         if isinstance(op, ast.Gt):
             return (t.left.args[0].id, "reject" if val else "accept")
-    raise AnalysisError(f"C04.1: unrecognised test of the check result: `{norm(test)}`")
+    # a test of the result in a form we do not interpret: no fact is learnt (the verdict of
+    # a later `return <result>` stays 'unknown', which is judged conservatively)
+    return None
 
 
 def _verdict_of_return(ret: ast.Return, facts: dict, resvars, convention):
